@@ -32,7 +32,7 @@ ASSUMPTIONS = ['the real file system of the sandbox holds the simulated director
                'descriptor at the instant save() returns (what a kill -9 of the process would leave)',
                'after a *reported* write failure the file content is not judged (the property does not speak about torn files)',
                'C16 equality per DESIGN.md Appendix E (ints and integer-valued floats identified; NaN equals NaN)']
-BUDGET = {'quick': {'runs': 1500, 'cap_s': 60, 'wall_s': 110, 'chunk': 25},
+BUDGET = {'quick': {'runs': 1200, 'cap_s': 60, 'wall_s': 110, 'chunk': 25},
           'thorough': {'runs': 60000, 'cap_s': 120, 'wall_s': 1500, 'chunk': 100}}
 
 TARGETS = [('path', 4), ('existing', 4), ('handle', 2), ('dirty_handle', 2), ('bytesio', 1), ('pathobj', 1.5), ('existing_pathobj', 1.5)]
@@ -52,7 +52,7 @@ def gen_plan(rng, tier, index):
         plan['family'] = gen_family(rng, n_roots=(1, 1), n_cond=(4, 7), n_rdm=(3, 5))
         plan['pre_ops'] = []
         plan['result'] = {'routine': rng.pick(['eval_fixed', 'eval_bootstrap_rdm', 'eval_bootstrap', 'crossval', 'bootstrap_crossval', 'eval_dual_bootstrap', 'eval_bootstrap_pattern']),
-                          'models': [rng.pick(['fixed', 'weighted', 'select', 'interpolate']) for _ in range(rng.randint(1, 12 if rng.chance(0.15) else 3))],
+                          'models': [rng.pick(['fixed', 'weighted', 'select', 'interpolate']) for _ in range(rng.randint(1, 12 if rng.chance(0.06) else 3))],
                           'method': rng.pick(['cosine', 'corr', 'spearman']), 'N': rng.randint(3, 6)}
     fops = []
     for _ in range(rng.randint(2, 8)):
